@@ -3,17 +3,17 @@ From Coq Require Import List Bool Arith NArith.
 Import ListNotations.
 From NV Require Import Gen.IRProcConsts38 IRProc.C38Model IRProc.C38Proofs.
 
-(* admits cfg r = true  <->  processAddNode reaches NotarySignAndInvokeTX for the request r under the
+(* accepts cfg r = true  <->  processAddNode reaches NotarySignAndInvokeTX for the request r under the
    configured validator list cfg (any list: the theorem quantifies over configurations). *)
-Theorem C38_admit_implies_all_validators : forall cfg r,
-  admits cfg r = true ->
+Theorem C38_accept_implies_all_validators : forall cfg r,
+  accepts cfg r = true ->
   a_alphabet r = true /\ tx_valid r /\ forall v, In v cfg -> verdict r v = true.
-Proof. exact admit_implies. Qed.
+Proof. exact accept_implies. Qed.
 
 Theorem C38_reference_sound : forall cfg r,
-  (admits cfg r = true -> may_admit cfg r = true)
-  /\ (may_admit cfg r = true -> a_alphabet r = true /\ tx_valid r /\ forall v, In v cfg -> verdict r v = true).
-Proof. intros. split; [apply admit_ref|apply may_admit_sound]. Qed.
+  (accepts cfg r = true -> may_accept cfg r = true)
+  /\ (may_accept cfg r = true -> a_alphabet r = true /\ tx_valid r /\ forall v, In v cfg -> verdict r v = true).
+Proof. intros. split; [apply accept_ref|apply may_accept_sound]. Qed.
 
 (* histories of notifications, ticks and membership changes, from any initial counter: the tick
    that follows the prefix `pre` invokes NewEpoch exactly once with (latest notified epoch + 1)
@@ -41,24 +41,24 @@ Theorem C38_next_is_successor : forall c, (c < 18446744073709551615)%N -> next c
 Proof. exact next_is_succ. Qed.
 
 Theorem C38_non_alphabet_never : forall cfg r init pre post,
-  (a_alphabet r = false -> admits cfg r = false)
+  (a_alphabet r = false -> accepts cfg r = false)
   /\ (alpha_at false pre = false -> nth (ticks pre) (run (mkhst init false) (pre ++ Tick :: post)) [] = []).
 Proof.
-  intros. split; [apply non_alphabet_never_admits|].
+  intros. split; [apply non_alphabet_never_accepts|].
   intros H. rewrite C38_tick_next. rewrite H. reflexivity.
 Qed.
 
 (* non-vacuity *)
 Example C38_nonvacuous :
-  admits [VState; VStruct; VFact 0] (mkareq true 0 true 1 true [true; false]) = true
-  /\ admits [VState; VStruct; VFact 0; VFact 1] (mkareq true 0 true 1 true [true; false]) = false
-  /\ admits [VFact 0] (mkareq true 1 true 1 true [true]) = false
+  accepts [VState; VStruct; VFact 0] (mkareq true 0 true 1 true [true; false]) = true
+  /\ accepts [VState; VStruct; VFact 0; VFact 1] (mkareq true 0 true 1 true [true; false]) = false
+  /\ accepts [VFact 0] (mkareq true 1 true 1 true [true]) = false
   /\ run (mkhst 5 true) [Tick; Notif 9 0; Tick; SetAlpha false; Tick; Notif 3 (16 + 4096); SetAlpha true; Tick]%N = [[6]; [10]; []; [4]]%N
-  /\ admits [VFact 0] (mkareq true 2 true 1 true [true]) = false
+  /\ accepts [VFact 0] (mkareq true 2 true 1 true [true]) = false
   /\ next 18446744073709551615%N = 0%N.
 Proof. vm_compute. repeat split. Qed.
 
-Print Assumptions C38_admit_implies_all_validators.
+Print Assumptions C38_accept_implies_all_validators.
 Print Assumptions C38_reference_sound.
 Print Assumptions C38_tick_next.
 Print Assumptions C38_tick_follows_notification.
